@@ -58,4 +58,45 @@ CHECKS["C15"] = {
             "(materialisation per registry / unit system) is not yet under contract",
     "technique": "ground + symbolic-identity obligations over tables extracted from the AST (sympy exact), part of the contract-based framework",
 }
+UFUNC_NOTE = ("; NumPy ufuncs are assumed element-wise scalar functions over reals (closed forms for "
+              "add/subtract/multiply/divide/max/min/comparisons, uninterpreted + degree-1 homogeneity for "
+              "hypot/remainder/fmod); arrays abstracted to one arbitrary element, dtype, shape class and buffer "
+              "identity; units that compare equal under Unit.__eq__ (isclose 1e-9) are identified; operator->ufunc "
+              "dispatch is NumPy's; reduce/accumulate/outer/out= forms and list operands are not yet under contract")
+CHECKS["C01"] = {
+    "category": "proof",
+    "text": "the real body of unyt_array.__array_ufunc__ is proved, per commensurability-requiring ufunc (add, "
+            "subtract, maximum/minimum/fmax/fmin, hypot, remainder/mod/fmod, the six comparisons) and per operand "
+            "configuration (quantity, bare scalar, 0, bare array on either side), for all units, readings, dtypes and "
+            "shapes: a value is returned only for operands of one dimension or under a documented exception, == / != "
+            "answer all-False/all-True, and on every raising path numbers, dtype and unit of every operand are "
+            "unchanged; the ufunc -> unit-rule table is re-extracted from the AST and checked against the "
+            "classification the statement implies; _get_conversion_factor raises exactly on dimension mismatch",
+    "note": TRUST + UFUNC_NOTE + "; array-function handlers and __setitem__ are not yet under contract",
+    "technique": TECH,
+}
+CHECKS["C04"] = {
+    "category": "proof",
+    "text": "SI-homomorphism of __array_ufunc__ proved from its real body for the additive, positively homogeneous, "
+            "comparison and multiplicative ufunc classes and seven operand configurations: SI(result) = op(SI(a), SI(b)) "
+            "for all real scales and readings, dimension of products/quotients by dimensional analysis, sums labelled "
+            "with the left-most operand's unit; the unit rules (_multiply_units, _divide_units, simplify, "
+            "as_coeff_unit, Unit.__mul__/__truediv__/__pow__) are proved against contracts that carry coefficient x "
+            "scale, so the law does not depend on what sympy cancels; re-expression invariance of whole expressions "
+            "follows by induction over these per-call contracts",
+    "note": TRUST + UFUNC_NOTE + "; powers/roots/trigonometric ufuncs, reductions and dot are not yet under contract",
+    "technique": TECH,
+}
+CHECKS["C08"] = {
+    "category": "proof",
+    "text": "for every ordered pair of the library's temperature unit names (K, R, degC, degF, delta_degC, "
+            "delta_degF, a prefixed difference mK and a prefixed point mdegC) the real __array_ufunc__ is proved for add "
+            "and subtract with symbolic readings, degree sizes and zero points: whenever a value is returned it is the "
+            "affine point/difference value in the degree size of the label and the label is a point or difference "
+            "scale as required; two different offset scales are never combined; Unit.__mul__/__truediv__/__pow__ refuse "
+            "offset units; conversions are the exact affine maps (C03 contract)",
+    "note": TRUST + UFUNC_NOTE + "; table facts (which names carry a zero point, degree sizes of degC/degF) enter as "
+            "preconditions checked by C02's ground obligations; diff/ptp/ediff1d helpers not yet under contract",
+    "technique": TECH,
+}
 NOT_APPLICABLE = {}
